@@ -10,3 +10,13 @@ open Verif.Props.C01
 #print axioms rewrite_sound_counterexample
 #print axioms guarded_is_model
 #print axioms printer_sound
+#print axioms optStmt_sound
+#print axioms stmts_sound_block
+#print axioms stmts_sound_partial
+#print axioms stmts_sound_counterexample
+#print axioms print_derives
+#print axioms print_derives_parsed
+#print axioms print_target
+#print axioms assoc_land
+#print axioms assoc_lor
+#print axioms assoc_nullish
